@@ -116,28 +116,28 @@ Theorem C08_diagonal_junk_independent (S : Scalar) (A : crs S) invert (junk1 jun
 Proof. exact (diagonal_junk_independent A invert junk1 junk2). Qed.
 Print Assumptions C08_diagonal_junk_independent.
 
-(* pointwise_matrix: the counting pass fits the fill pass; the while(!done) loop of the model
-   never stops for lack of fuel; well-formed result when block_size divides the number of
+(* pointwise_matrix (current code, after /repo 2f75975): the counting pass fits the fill pass;
+   the while(!done) loop of the model never stops for lack of fuel (all inputs, also unsorted); well-formed result when block_size divides the number of
    columns (the C++ only checks the rows; without it a column index = ncols/bs is produced) *)
 Theorem C08_pointwise_passes_agree (S : Scalar) (A C : crs S) bs :
   pointwise_matrix A bs = Some C -> pointwise_counts A bs = map (@length _) (rows C).
-Proof. exact (PwCopy.pointwise_counts_correct A C bs). Qed.
+Proof. exact (PwNew.pointwise_counts_correct A C bs). Qed.
 Print Assumptions C08_pointwise_passes_agree.
 
-Theorem C08_pointwise_fuel_sufficient (S : Scalar) bs (js : list (row S)) k :
+Theorem C08_pointwise_fuel_sufficient (S : Scalar) bs (js : list (row S)) k : (0 < bs)%nat ->
   pw_block_row bs js = pw_loop (pw_fuel js + k)%nat bs (pw_init js) js.
-Proof. exact (PwCopy.pw_block_row_fuel bs js k). Qed.
+Proof. exact (PwNew.pw_block_row_fuel bs js k). Qed.
 Print Assumptions C08_pointwise_fuel_sufficient.
 
 Theorem C08_pointwise_wf (S : Scalar) (A C : crs S) bs :
   wf A = true -> 0 < bs -> ncols A = (ncols A / bs * bs)%nat -> pointwise_matrix A bs = Some C ->
   wf C = true /\ nrows C = (nrows A / bs)%nat /\ ncols C = (ncols A / bs)%nat.
-Proof. exact (PwCopy.pointwise_matrix_wf A C bs). Qed.
+Proof. exact (PwNew.pointwise_matrix_wf A C bs). Qed.
 Print Assumptions C08_pointwise_wf.
 
 Theorem C08_pointwise_wf_needs_column_divisibility (S : Scalar) :
   exists A C : crs S, wf A = true /\ pointwise_matrix A 2 = Some C /\ wf C = false.
-Proof. exact PwCopy.pointwise_matrix_wf_needs_div. Qed.
+Proof. exact PwNew.pointwise_matrix_wf_needs_div. Qed.
 
 (* constructors: copying through the flat (ptr, col, val) view is the identity; the range
    constructor accepts exactly the consistent sizes *)
@@ -244,16 +244,13 @@ Theorem C08_gershgorin_value (lens : list nat) (A : crs S) :
   spectral_radius_gersh false lens A = gersh_spec false A.
 Proof. exact (Gersh.gersh_value_unscaled lt_irrefl lt_trans lt_total lens A). Qed.
 
-(* scaled variant: max_i |1/d_i| sum_j |a_ij| with d_i the LAST stored diagonal entry of row i,
-   provided every row stores a diagonal entry (otherwise the thread-private [dia] of the
-   previous row is used and the value depends on the chunking: Gersh.exC_guard_needed) *)
+(* scaled variant: max_i |1/d_i| sum_j |a_ij| with d_i the LAST stored diagonal entry of row i
+   (the identity when row i stores none: [dia] is reset for every row since /repo f082a42),
+   again for every chunking *)
 Theorem C08_gershgorin_value_scaled (lens : list nat) (A : crs S) :
-  has_diag A = true -> nrows A <= fold_right Nat.add 0 lens ->
+  nrows A <= fold_right Nat.add 0 lens ->
   spectral_radius_gersh true lens A = gersh_spec true A.
-Proof.
-  intro H. apply (Gersh.gersh_value_scaled lt_irrefl lt_trans lt_total lens A).
-  rewrite Gersh.has_last_diag_has_diag. exact H.
-Qed.
+Proof. exact (Gersh.gersh_value_scaled lt_irrefl lt_trans lt_total lens A). Qed.
 
 (* upper bound of the spectral radius: every eigenvalue of A (resp. of D^-1 A) is bounded *)
 Theorem C08_gershgorin_bound (A : crs S) (v : vec S) (lam : S) :
@@ -296,43 +293,54 @@ Proof. exact (pm_iter_unscaled A b0). Qed.
 Print Assumptions C08_power_iteration_partial.
 
 (* ================================================================== *)
-(* 4. pointwise_matrix: the block-maximum specification is REFUTED by the code as it is *)
+(* 4. pointwise_matrix = block maximum (current code); refuted for the pre-fix code *)
 
-(* FULL STATEMENT (refuted): for wf A with sorted duplicate-free rows and sizes divisible by bs,
-   pointwise_matrix A bs = Some (pointwise_spec A bs), where row I of pointwise_spec lists, for
-   the block columns J with at least one stored entry in block (I,J), the largest norm of the
-   stored entries of the block. *)
-Theorem C08_pointwise_refuted :
-  exists (A : crs QcS) (bs : nat) (C : crs QcS),
-    pw_input_ok A bs = true /\ pointwise_matrix A bs = Some C /\
-    crs_eqb C (pointwise_spec A bs) = false /\ C <> pointwise_spec A bs.
-Proof. exact pointwise_refuted. Qed.
-Print Assumptions C08_pointwise_refuted.
-
-Theorem C08_pointwise_refuted_pattern :
-  exists (A : crs QcS) (bs : nat) (C : crs QcS),
-    pw_input_ok A bs = true /\ pointwise_matrix A bs = Some C /\
-    map (map fst) (rows C) <> map (map fst) (rows (pointwise_spec A bs)).
-Proof. exact pointwise_refuted_pattern. Qed.
-Print Assumptions C08_pointwise_refuted_pattern.
-
-(* ... but it IS the block maximum on the sub-domain where the defect cannot trigger: every
-   block row stores entries in at most one block column (e.g. block-diagonal matrices) *)
-Theorem C08_pointwise_single_block_column (S : Scalar) (A : crs S) bs :
+(* entry (I,J) = largest norm of the stored entries of block (I,J), pattern = blocks with a stored
+   entry, block columns increasing -- for row-sorted input (duplicates allowed), sizes divisible
+   by the block size; any Scalar (the code folds max over the same values in the same order) *)
+Theorem C08_pointwise_block_maximum (S : Scalar) (A : crs S) bs :
   bs <> 0%nat -> (nrows A / bs * bs)%nat = nrows A ->
-  Forall (PwPos.single_or_empty bs (ncols A / bs)%nat) (groups (nrows A / bs)%nat bs (rows A)) ->
+  Forall (fun r => sorted_weak r = true) (rows A) ->
+  wf A = true -> ncols A = (ncols A / bs * bs)%nat ->
   pointwise_matrix A bs = Some (pointwise_spec A bs).
-Proof. exact (PwPos.pointwise_matrix_single_column A bs). Qed.
-Print Assumptions C08_pointwise_single_block_column.
+Proof. exact (PwSpec.pointwise_matrix_spec A bs). Qed.
+Print Assumptions C08_pointwise_block_maximum.
 
-(* the witnesses, as run: [1 1] with bs = 1; rows (0:1)(2:1) | (4:1) with bs = 2;
-   1D Poisson (x) I_2 with bs = 2 (the case pointwise aggregation uses): off-diagonal 0 *)
-Example C08_pointwise_witnesses :
-  (qrows_of (pw_out pw_wit1 1) = [[(0, (1#1)%Q); (1, (0#1)%Q)]] /\
-   qrows_of (pointwise_spec pw_wit1 1) = [[(0, (1#1)%Q); (1, (1#1)%Q)]]) /\
-  (qrows_of (pw_out pw_wit3 2) = [[(0, (2#1)%Q); (1, (0#1)%Q)]; [(0, (1#1)%Q); (1, (0#1)%Q)]] /\
-   qrows_of (pointwise_spec pw_wit3 2) = [[(0, (2#1)%Q); (1, (1#1)%Q)]; [(0, (1#1)%Q); (1, (2#1)%Q)]]).
-Proof. exact (conj pw_wit1_run pw_wit3_run). Qed.
+(* per block row, with the in-range condition spelled out *)
+Theorem C08_pointwise_block_row (S : Scalar) bs mp (js : list (row S)) :
+  (0 < bs)%nat -> Forall (fun r => sorted_weak r = true) js ->
+  Forall (Forall (fun e => (fst e / bs < mp)%nat)) js ->
+  pw_block_row bs js = pw_spec_row bs mp js.
+Proof. exact (PwSpec.pw_block_row_spec bs mp js). Qed.
+
+(* HISTORICAL, about the scan as it was BEFORE /repo commit 2f75975 (definitions *_old in
+   MatOps2.v; finding F-C08-pointwise-terminator, fixed): the same specification was violated,
+   in value and in pattern, on well-formed row-sorted duplicate-free input. *)
+Theorem C08_pointwise_old_refuted :
+  exists (A : crs QcS) (bs : nat) (C : crs QcS),
+    pw_input_ok A bs = true /\ pointwise_matrix_old A bs = Some C /\
+    crs_eqb C (pointwise_spec A bs) = false /\ C <> pointwise_spec A bs.
+Proof. exact pointwise_old_refuted. Qed.
+Print Assumptions C08_pointwise_old_refuted.
+
+Theorem C08_pointwise_old_refuted_pattern :
+  exists (A : crs QcS) (bs : nat) (C : crs QcS),
+    pw_input_ok A bs = true /\ pointwise_matrix_old A bs = Some C /\
+    map (map fst) (rows C) <> map (map fst) (rows (pointwise_spec A bs)).
+Proof. exact pointwise_old_refuted_pattern. Qed.
+Print Assumptions C08_pointwise_old_refuted_pattern.
+
+(* the old witnesses under the CURRENT scan: [1 1] with bs = 1 and 1D Poisson (x) I_2 with bs = 2
+   (the case pointwise aggregation uses) now reduce to what the definition prescribes *)
+Example C08_pointwise_witnesses_now :
+  pointwise_matrix pw_wit1 1 = Some (pointwise_spec pw_wit1 1) /\
+  pointwise_matrix pw_wit2 2 = Some (pointwise_spec pw_wit2 2) /\
+  pointwise_matrix pw_wit3 2 = Some (pointwise_spec pw_wit3 2) /\
+  qrows_of (pointwise_spec pw_wit3 2) = [[(0, (2#1)%Q); (1, (1#1)%Q)]; [(0, (1#1)%Q); (1, (2#1)%Q)]].
+Proof.
+  repeat split; try (apply PwSpec.pointwise_matrix_spec; vm_compute;
+                     first [discriminate | reflexivity | repeat constructor]).
+Qed.
 
 (* ================================================================== *)
 (* 5. Closed instances at the exact rationals: no hypotheses left      *)
@@ -363,8 +371,7 @@ Proof. exact (Gersh.spectral_radius_gersh_bound_Qc lens A v lam). Qed.
 Print Assumptions C08_gershgorin_upper_bound_Qc.
 
 Theorem C08_gershgorin_upper_bound_scaled_Qc lens (A : crs QcS) (v : vec QcS) (lam : QcS) :
-  nrows A <= fold_right Nat.add 0 lens -> Gersh.has_last_diag A = true ->
-  wf A = true -> nrows A = ncols A ->
+  nrows A <= fold_right Nat.add 0 lens -> wf A = true -> nrows A = ncols A ->
   (forall i, i < nrows A -> Gersh.last_diag A i <> s0) ->
   (forall i, i < nrows A -> Ax A v i = lam * Gersh.last_diag A i * vget v i) ->
   (exists i, i < nrows A /\ vget v i <> s0) ->
@@ -382,12 +389,10 @@ Proof.
   - reflexivity.
 Qed.
 
-(* non-vacuity: hypotheses of the Gershgorin theorems are satisfiable, guard is needed *)
-Example C08_gershgorin_nonvacuous :
-  Gersh.has_last_diag Gersh.exC = false /\
-  spectral_radius_gersh true [2] Gersh.exC = qc 2 1 /\
-  spectral_radius_gersh true [1; 1] Gersh.exC = qc 4 1.
-Proof. exact Gersh.exC_guard_needed. Qed.
+(* a matrix with a row without diagonal entry: the value no longer depends on the chunking *)
+Example C08_gershgorin_chunk_independent :
+  spectral_radius_gersh true [2] Gersh.exC = spectral_radius_gersh true [1; 1] Gersh.exC.
+Proof. exact (proj1 (proj2 Gersh.exC_chunk_independent)). Qed.
 
 Example C08_nonvacuous :
   let A : crs QcS := mkCrs 3 [[(1, qc 1 1); (0, qc 1 2); (1, qc 2 1)]; [(2, qc 3 1)]]%nat in
